@@ -27,6 +27,7 @@ M0 == [dialect |-> "", tables |-> <<>>, world |-> "open",
        frames |-> <<>>,            \* stack of WITH frames, each a sequence of [name, rel]
        scopes |-> <<>>,            \* stack of SELECT scopes, innermost last
        results |-> <<>>,           \* stack of finished relations, newest last
+       expect |-> <<>>, hasExpect |-> FALSE, ordered |-> TRUE,   \* C05: the columns the statement must return
        judged |-> TRUE]
 
 NewScope(iso) == [iso |-> iso, aliases |-> <<>>, out |-> <<>>, outOpen |-> FALSE, nproj |-> 0]
@@ -200,5 +201,22 @@ Step(m, e) ==
 \* a walk that is complete leaves exactly the statement's relation
 Complete(m) == Len(m.results) = 1 /\ m.scopes = <<>> /\ m.frames = <<>>
 
-Begin(e) == [M0 EXCEPT !.dialect = e.q, !.tables = e.tabs, !.world = e.alias]
+\* C05: the statement's relation has one column per column of the expected frame, in order,
+\* under the same name wherever SQL gives the column a name (unknown when a star ranges over a
+\* table of unknown schema)
+Bag(s) == [x \in Set(s) |-> Cardinality({ i \in 1 .. Len(s) : s[i] = x })]
+FrameOk(m) ==
+  ~m.hasExpect \/ LET r == Top(m.results) IN
+     \/ r.open
+     \/ /\ Len(r.cols) = Len(m.expect)
+        /\ IF m.ordered
+           \* "" = a column the program gave no name: any (generated) name will do
+           THEN \A i \in 1 .. Len(r.cols) : r.cols[i] = "" \/ m.expect[i] = "" \/ r.cols[i] = m.expect[i]
+           \* open schema: the order inside a star is the table's, not the compiler's; names as a bag
+           ELSE LET nm(s) == SelectSeq(s, LAMBDA c : c # "" /\ c \in Set(m.expect) /\ c \in Set(r.cols)) IN
+                /\ Bag(nm(r.cols)) = Bag(nm(m.expect))
+                /\ \A c \in Set(m.expect) \ {""} : c \in Set(r.cols) \/ "" \in Set(r.cols)
+                /\ \A c \in Set(r.cols) \ {""} : c \in Set(m.expect) \/ "" \in Set(m.expect)
+
+Begin(e) == [M0 EXCEPT !.dialect = e.q, !.tables = e.tabs, !.world = e.alias, !.expect = e.expect, !.hasExpect = e.has_expect, !.ordered = e.ordered]
 =============================================================================
